@@ -565,7 +565,7 @@ def execute(trace: dict) -> Result:
 # --------------------------------------------------------------------------------------
 
 
-def gen_valid_topology(rng: random.Random, uspec: dict, allow_selfloop=True) -> dict:
+def gen_valid_topology(rng: random.Random, uspec: dict, allow_selfloop=True, max_interior=4) -> dict:
     """A random *valid* METANET topology over (a subset of) the universe.
     Returns {"links": [[u,l,v]..], "origins": [[o,n]..], "dests": [[d,n]..]} or fewer items
     than wished when the universe is too small (still valid)."""
@@ -590,7 +590,7 @@ def gen_valid_topology(rng: random.Random, uspec: dict, allow_selfloop=True) -> 
         return sum(1 for u, _, _ in L if u == n)
 
     # interior skeleton: a chain (possibly closed into a ring) of m interior nodes
-    m = rng.randint(1, max(1, min(4, nn - 2)))
+    m = rng.randint(1, max(1, min(max_interior, nn - 2)))
     interior = [nodes.pop() for _ in range(m)]
     for a, b in zip(interior, interior[1:]):
         if links:
@@ -603,7 +603,7 @@ def gen_valid_topology(rng: random.Random, uspec: dict, allow_selfloop=True) -> 
         L.append((interior[0], links.pop(), interior[0]))
         ring = True
     # extra interior edges (merges / bifurcations / parallel routes)
-    for _ in range(rng.randint(0, 2)):
+    for _ in range(rng.randint(0, 2 if max_interior <= 4 else 5)):
         if len(links) > 2 and m >= 2:
             a, b = rng.sample(interior, 2)
             if not any(u == a and v == b for u, _, v in L):
@@ -952,15 +952,16 @@ def generate(prop: str, run_seed: int, tier: str = "quick") -> dict:
     name_mode = rng.choice(["unique", "unique", "unique", "dup", "mixed"]) if prop == "C08" else (
         rng.choice(["unique", "unique", "dup", "mixed"])
     )
-    U = gen_universe_spec(rng, name_mode=name_mode)
+    big = rng.random() < 0.05  # swarm: now and then a much larger universe and history
+    U = gen_universe_spec(rng, name_mode=name_mode, **({"n_nodes": (9, 14), "n_links": (10, 18), "n_origins": (4, 8), "n_dests": (3, 6)} if big else {}))
     # swarm: which fault kinds this run may use; one third of runs are fault-free
     enabled: set = set()
     if rng.random() > 0.34:
         for f in ("iter_raise", "reentrant", "malformed", "chaos"):
             if rng.random() < 0.6:
                 enabled.add(f)
-    topo = gen_valid_topology(rng, U)
-    n_builders = rng.randint(1, 4)
+    topo = gen_valid_topology(rng, U, max_interior=8 if big else 4)
+    n_builders = rng.randint(1, 6 if big else 4)
     plans = plan_calls(rng, topo, n_builders, enabled)
     ops = interleave(rng, plans)
     # other callers: reader, validator, chaos builder, malformed-path caller
@@ -1016,7 +1017,7 @@ def generate(prop: str, run_seed: int, tier: str = "quick") -> dict:
         push(op)
         sprinkle()
     # after the target is complete: perturb, check, repair, check
-    tail = rng.randint(0, 3) if enabled else rng.randint(0, 1)
+    tail = (rng.randint(0, 3) if enabled else rng.randint(0, 1)) + (rng.randint(0, 6) if big else 0)
     for _ in range(tail):
         r = rng.random()
         if r < 0.55 or "chaos" in enabled:
@@ -1030,7 +1031,7 @@ def generate(prop: str, run_seed: int, tier: str = "quick") -> dict:
             for rop in gen_repair_ops(rng, U, model):
                 push(rop)
                 sprinkle()
-    cfg = {"enabled": sorted(enabled), "topology": topo}
+    cfg = {"enabled": sorted(enabled), "topology": topo, "big": big}
     if rng.random() < 0.25:
         # a second network over the same element objects receives part of the traffic
         cfg["two_networks"] = True
